@@ -8,6 +8,7 @@ from . import c05
 
 ID = "C19"
 MODULE = "LasioProofs.Props.C19"
+EXTRA_MODULES = ["LasioProofs.Props.C19File"]
 RULE = ("base files (generated documents with tagged items and data, all title spellings and section orders of C05, + the readable files of "
         "tests/examples up to 200 lines) x junk lines (random printable ASCII 1-60 chars, only punctuation, only '.', only ':', quotes, blanks "
         "inside, 1 000 and 10 000 characters long; rejected: blank, '#' comment, '~' first, parsed mnemonic in {VERS, WRAP, DLM, NULL} in any "
@@ -282,8 +283,13 @@ LEVEL_TEXT = ("Machine-checked Lean 4 theorems about the executable model of par
               "ignore_header_errors the items loop never returns an error; inserting a line into a section body changes the item list only by "
               "inserting what that line alone parses to (nothing, or one item) at its place; a line whose parsed mnemonic is not a steering "
               "mnemonic leaves the steering values unchanged; without the flag the only error is HeaderError with the number of the first "
-              "unparsable line. Tie: differential comparison of the compiled model with lasio.read(ignore_data=True) on documents with junk "
+              "unparsable line. WHOLE FILE (Props/C19File.lean, on the whole-file reader Tf.readFull = header reader + data reader): a non-title "
+              "line inserted into a header-item section (not ~Curves unless it parses to nothing) whose parsed mnemonic is not a steering one "
+              "leaves the steering, the curves of every data section (windows shifted by one line) and every other section unchanged, and the "
+              "section that received it holds the old items with the line's own item inserted at its place (C19_file, C19_file_sections, "
+              "C19_file_item_list); an unparsable line changes nothing at all (C19_file_unparsable); with the flag no document can fail with a "
+              "header error (C19_file_total); counter-examples: NULL. 5 inserted in ~Well, a parsable line in ~Curves. Tie: differential comparison of the compiled model with lasio.read(ignore_data=True) on documents with junk "
               "lines, and the property's oracle on the real code including the curve data.")
-LEVEL_NOTE = ("Curve data are outside the header model: 'junk never alters the curve data' is checked by the oracle on the real code (the data "
-              "path depends on the header only through the steering values and the number of curves, which the theorems keep fixed for junk "
-              "outside ~C).")
+LEVEL_NOTE = ("'Junk never alters the curve data' is a theorem of the whole-file model (C19_file, hypothesis TildeNotFloat: float() rejects tokens "
+              "starting with '~', as in C09) and is also checked by the oracle on the real code. (c) of C19_file is stated as the entry-wise "
+              "relation JRel; when a later section is stored under the same key both reads keep the later one.")
